@@ -149,7 +149,9 @@ AllOps == FindOps \cup QuantOps \cup SortOps \cup StableSortOps \cup SetOps \cup
      "generate_n", "transform1", "transform2", "replace", "replace_if", "reverse", "reverse_copy", "rotate",
      "rotate_copy", "swap_ranges", "iter_swap", "inplace_merge", "unique", "unique_copy", "remove", "remove_if",
      "remove_copy", "remove_copy_if", "partition", "stable_partition", "partition_copy", "shift_left",
-     "shift_right", "partial_sort", "nth_element"}
+     "shift_right", "partial_sort", "nth_element",
+     \* the same algorithms through the library's iterator adaptors / searcher
+     "search_s", "copy_back", "copy_rev"}
 
 \* the predicate an operation applies to single elements of a
 Sat(op, x, e) ==
@@ -187,7 +189,7 @@ Post(op, x, o) ==
       [] op = "equal4" ->
             \* [alg.equal] if last1 - first1 != last2 - first2 return false
             Frame(x, o) /\ r = <<B2I(n = nb /\ \A i \in 1..n : Eq(c, a[i], b[i]))>>
-      [] op = "search" ->
+      [] op \in {"search", "search_s"} ->
             \* first i such that for every n < s_last - s_first: pred(*(i + n), *(s_first + n));
             \* first if the pattern is empty, last if no such iterator
             Frame(x, o) /\ r = <<IF Occ(a, b, c) = {} THEN n ELSE MinS(Occ(a, b, c))>>
@@ -241,7 +243,7 @@ Post(op, x, o) ==
             \* mid such that all_of(first, mid, pred) and none_of(mid, last, pred)
             /\ Frame(x, o) /\ Len(r) = 1 /\ r[1] \in 0..n
             /\ (\A i \in 1..r[1] : U(c, a[i])) /\ (\A i \in (r[1] + 1)..n : ~U(c, a[i]))
-      [] op = "copy" -> DstIs(x, o, a)
+      [] op \in {"copy", "copy_back"} -> DstIs(x, o, a)
       [] op = "copy_if" -> DstIs(x, o, Filter(a, LAMBDA e : U(c, e)))
       [] op = "copy_n" -> DstIs(x, o, Take(a, Max2(m, 0)))
       [] op = "copy_backward" ->
@@ -263,7 +265,7 @@ Post(op, x, o) ==
       [] op \in {"replace", "replace_if"} ->
             FrameA(x, o) /\ o.oa = [i \in 1..n |-> IF Sat(op, x, a[i]) THEN m * 16 + 7 ELSE a[i]] /\ r = <<>>
       [] op = "reverse" -> FrameA(x, o) /\ (\A i \in 1..n : o.oa[i] = a[n + 1 - i]) /\ r = <<>>
-      [] op = "reverse_copy" -> DstIs(x, o, [i \in 1..n |-> a[n + 1 - i]])
+      [] op \in {"reverse_copy", "copy_rev"} -> DstIs(x, o, [i \in 1..n |-> a[n + 1 - i]])
       [] op = "rotate" ->
             \* places the element from position first + (i + (middle - first)) % (last - first) into
             \* position first + i; returns first + (last - middle)
@@ -390,7 +392,7 @@ Ref(op, x) ==
             LET k == IF op = "mismatch3" THEN n ELSE Min2(n, nb) j == Scan(k, 0, LAMBDA i : ~Eq(c, a[i + 1], b[i + 1])) IN RO(x, <<j, j>>)
       [] op = "equal3" -> RO(x, <<B2I(Scan(n, 0, LAMBDA i : ~Eq(c, a[i + 1], b[i + 1])) = n)>>)
       [] op = "equal4" -> RO(x, <<B2I(n = nb /\ Scan(n, 0, LAMBDA i : ~Eq(c, a[i + 1], b[i + 1])) = n)>>)
-      [] op = "search" ->
+      [] op \in {"search", "search_s"} ->
             RO(x, <<IF nb > n THEN n ELSE
                       LET j == Scan(n - nb + 1, 0, LAMBDA i : Scan(nb, 0, LAMBDA k : ~Eq(c, a[i + k + 1], b[k + 1])) = nb)
                       IN IF j = n - nb + 1 THEN n ELSE j>>)
@@ -427,7 +429,7 @@ Ref(op, x) ==
       [] op = "is_partitioned" ->
             LET k == Scan(n, 0, LAMBDA i : ~U(c, a[i + 1])) IN RO(x, <<B2I(Scan(n, k, LAMBDA i : U(c, a[i + 1])) = n)>>)
       [] op = "partition_point" -> RO(x, <<Scan(n, 0, LAMBDA i : ~U(c, a[i + 1]))>>)
-      [] op = "copy" -> ToD(x, a, <<n>>)
+      [] op \in {"copy", "copy_back"} -> ToD(x, a, <<n>>)
       [] op = "copy_if" -> LET s == Filter(a, LAMBDA e : U(c, e)) IN ToD(x, s, <<Len(s)>>)
       [] op = "copy_n" -> ToD(x, Take(a, Max2(m, 0)), <<Max2(m, 0)>>)
       [] op = "copy_backward" -> ToD(x, <<Blank>> \o a, <<1>>)
@@ -441,7 +443,7 @@ Ref(op, x) ==
       [] op = "transform2" -> ToD(x, [i \in 1..n |-> T2(a[i], b[i])], <<n>>)
       [] op \in {"replace", "replace_if"} -> InPl(x, [i \in 1..n |-> IF Sat(op, x, a[i]) THEN m * 16 + 7 ELSE a[i]], <<>>)
       [] op = "reverse" -> InPl(x, RevW(a), <<>>)
-      [] op = "reverse_copy" -> ToD(x, RevW(a), <<n>>)
+      [] op \in {"reverse_copy", "copy_rev"} -> ToD(x, RevW(a), <<n>>)
       [] op = "rotate" -> InPl(x, Drop(a, m) \o Take(a, m), <<n - m>>)
       [] op = "rotate_copy" -> ToD(x, Drop(a, m) \o Take(a, m), <<n>>)
       [] op = "swap_ranges" -> O(b, a, <<>>, <<>>, <<n>>)
@@ -481,7 +483,7 @@ Ref(op, x) ==
 
 \* operations whose only observable result is the return value: Post must determine it uniquely
 RetOnlyOps == FindOps \cup QuantOps \cup
-    {"count", "count_if", "adjacent_find", "mismatch3", "mismatch4", "equal3", "equal4", "search", "search_n",
+    {"count", "count_if", "adjacent_find", "mismatch3", "mismatch4", "equal3", "equal4", "search", "search_s", "search_n",
      "find_end", "find_first_of", "is_permutation3", "is_permutation4", "lexicographical_compare", "lower_bound",
      "upper_bound", "equal_range", "binary_search", "includes", "min_element", "max_element", "minmax_element",
      "is_sorted", "is_sorted_until", "is_partitioned", "partition_point"}
